@@ -287,27 +287,50 @@ pub fn gen_ops(rng: &mut Rng, ntables: usize, niters: usize, keys: &[Vec<u8>], n
     ops
 }
 
-/// run a session on both sides; returns the implementation's per-op outputs
-pub fn compare(d: &mut Driver, rep: &mut Report, s: &Session) -> Vec<String> {
+/// which parts of a per-op output `<result>~<reads>~<events>~<count>` a property's correspondence compares
+#[derive(Clone, Copy, PartialEq)]
+pub enum Cmp {
+    /// results and iterator state fingerprints only (properties about answers)
+    Results,
+    /// everything: results, read_at log, block events, cache count (properties about the cache / reads)
+    All,
+}
+fn project(out: &str, c: Cmp) -> &str {
+    match c {
+        Cmp::All => out,
+        Cmp::Results => out.split('~').next().unwrap_or(out),
+    }
+}
+
+/// run a session on both sides; returns (implementation's per-op outputs, model's per-op outputs)
+pub fn compare_full(d: &mut Driver, rep: &mut Report, s: &Session, what: Cmp) -> (Vec<String>, Vec<String>) {
     let req = s.request();
     let model = d.ask(&req);
     let imp = s.run_impl();
-    let imp_s = imp.join(";");
-    if model != imp_s {
-        // first differing op
-        let m: Vec<&str> = model.split(';').collect();
+    let m: Vec<String> = model.split(';').map(|x| x.to_string()).collect();
+    let same = m.len() == imp.len() && m.iter().zip(imp.iter()).all(|(a, b)| project(a, what) == project(b, what));
+    if !same {
         let mut idx = 0;
-        while idx < m.len() && idx < imp.len() && m[idx] == imp[idx] {
+        while idx < m.len() && idx < imp.len() && project(&m[idx], what) == project(&imp[idx], what) {
             idx += 1;
         }
         rep.disagree(J::obj(vec![
             ("stream", J::s("S10 table")),
+            ("compared", J::s(if what == Cmp::All { "results, reads, block events, cache count" } else { "results and iterator state" })),
             ("first_differing_op", J::N(idx as i64)),
             ("op", J::s(&s.ops.get(idx).map(|o| o.text()).unwrap_or_default())),
             ("impl", J::s(imp.get(idx).map(|x| x.as_str()).unwrap_or("<missing>"))),
-            ("model", J::s(m.get(idx).cloned().unwrap_or("<missing>"))),
+            ("model", J::s(m.get(idx).map(|x| x.as_str()).unwrap_or("<missing>"))),
             ("request", J::s(&if req.len() > 3000 { format!("{}…", &req[..3000]) } else { req.clone() })),
         ]));
     }
-    imp
+    (imp, m)
+}
+/// results-only comparison (answers and iterator state)
+pub fn compare(d: &mut Driver, rep: &mut Report, s: &Session) -> Vec<String> {
+    compare_full(d, rep, s, Cmp::Results).0
+}
+/// full comparison (answers, reads, block events, cache count)
+pub fn compare_all(d: &mut Driver, rep: &mut Report, s: &Session) -> Vec<String> {
+    compare_full(d, rep, s, Cmp::All).0
 }
